@@ -495,7 +495,8 @@ MIXED = {
     "C40": ("routing", dict(versions=[5, 5, 4], shared=0.1, qos=[0, 1, 2], retain=0.4, empty_payload=0.2,
                             filters=[["a"], ["a", "#"], ["a", "+"], ["#"], ["b"], ["+", "#"]], topics=[["a"], ["a", "b"], ["b"], ["$a", "b"]],
                             weights=dict(subscribe=4, unsubscribe=1, publish=6, disconnect=1, connect=1, inline_publish=8, inline_subscribe=6, inline_unsubscribe=3)), dict(inline=[True])),
-    "C30": ("routing", dict(versions=[5, 4, 3], bad_filters=0.5, qos=[0, 1], weights=dict(subscribe=10, unsubscribe=1, publish=4, disconnect=1, connect=1)), dict()),
+    "C30": ("routing", dict(versions=[5, 5, 4, 3], bad_filters=0.5, qos=[0, 1], sys_topics=0.3, in_alias=0.4, alias_max=2, retain=0.3, filters=[["#"], ["$SYS", "#"], ["a"], ["+"]],
+                            weights=dict(subscribe=10, unsubscribe=1, publish=8, disconnect=1, connect=1)), dict()),
 }
 MIXED_ENFORCE = {"C40": ["C40", "C03", "C04"]}
 
@@ -631,5 +632,6 @@ FAMILY = {p: routing_check for p in ENFORCE}
 FAMILY.update({p: qos_check for p in QOS_PROFILES})
 FAMILY.update({p: session_check for p in SESSION_PROFILES})
 FAMILY.update({p: mixed_check for p in MIXED if p != "C30"})
+BROKER_PART_C30 = mixed_check
 FAMILY["C19"] = c19_check
 FAMILY = {p: _with_replay(f) for p, f in FAMILY.items()}
